@@ -112,6 +112,10 @@ def run(asm, out_path, rlimit=60, extra_args=(), threads=8):
 
 
 def _attribute(asm, msg, spans, rendered):
+    # spans that point into other files (macro expansions such as `matches!` carry spans of core's macro source) say nothing
+    # about lines of the unit
+    own = [sp for sp in spans if str(sp.get("file_name", "unit.rs")).endswith("unit.rs")]
+    spans = own or spans
     prim = [sp for sp in spans if sp.get("is_primary")] or spans
     clause = None
     fn_body = None
